@@ -50,7 +50,8 @@ def verdict(ctx, checker_cmd):
 def run_check(prop, tier, seed, replay=None):
     mod = importlib.import_module(f"vlib.{prop.lower()}")
     ctx = Ctx(prop, tier, seed)
-    checker_cmd = f"cd lean && lake build {' '.join(mod.MODULES)} kdriver && lake env lean <audit: #print axioms of {len(mod.THEOREMS)} theorems>"
+    drivers = getattr(mod, "DRIVERS", [f"kd_{prop.lower()}"])
+    checker_cmd = f"cd lean && lake build {' '.join(mod.MODULES)} {' '.join(drivers)} && lake env lean <audit: #print axioms of {len(mod.THEOREMS)} theorems>"
     try:
         # 1. translator: regenerate Generated/*.lean from /repo
         if hasattr(mod, "extract"):
@@ -61,7 +62,7 @@ def run_check(prop, tier, seed, replay=None):
             except Exception as e:
                 ctx.broken.append(f"translator: {type(e).__name__}: {e}")
         # 2. build models + driver, then proofs
-        ok, out = common.lake_build(["kdriver"])
+        ok, out = common.lake_build(drivers)
         ctx.driver_ok = ok
         if not ok:
             ctx.broken.append("model/driver build failed: " + out[-1500:])
